@@ -5,7 +5,7 @@
 (*   "entry"   one directory entry e (local names over the byte-class alphabet, host/port   *)
 (*             variants incl. Host=+ with a Port, foreign host, URL: selectors) rendered    *)
 (*             for protocol view p and for plain Gopher: Canon of both renderings agree     *)
-(*             (EntriesAgree), except for the NAMED deviation DefaultPort70                 *)
+(*             (EntriesAgree), except for the NAMED deviation EmptySelectorHref             *)
 (*   "search"  a search string s typed into a search item (selector with reserved           *)
 (*             characters or Virtual "?args") through p's own mechanism                     *)
 (*             reaches the handler as s (SearchesArrive), except for FormDecodeReplace      *)
@@ -58,7 +58,7 @@ Compute ==
     /\ res = "new"
     /\ res' = IF mode = "tree" THEN TreeVerdict(p, c, hl)
               ELSE IF mode = "entry"
-              THEN (IF EntryAgrees(p, e) THEN "ok" ELSE IF DefaultPort70(e) /\ p \in UrlViews THEN "DefaultPort70"
+              THEN (IF EntryAgrees(p, e) THEN "ok"
                     ELSE IF EmptySelectorHref(p, e) THEN "EmptySelectorHref" ELSE "EntryDiffers")
               ELSE (IF SearchReaches(p, Target(p, e), RootRef(p), s) = s THEN "ok"
                     ELSE IF FormDecodeReplace(p, s) THEN "FormDecodeReplace"
@@ -70,5 +70,5 @@ EntriesAgree == res # "EntryDiffers"
 SearchesArrive == res # "SearchDiffers"
 TreesAgree == res # "TreeDiffers"
 \* expected to be violated while the findings are open (witnesses that the deviations are reachable)
-NoNamedDeviation == res \notin {"DefaultPort70", "EmptySelectorHref", "FormDecodeReplace", "PlusFlagAmbiguity"}
+NoNamedDeviation == res \notin {"EmptySelectorHref", "FormDecodeReplace", "PlusFlagAmbiguity"}
 =============================================================================
